@@ -102,6 +102,7 @@ _LOADED = {}
 
 
 def load(group, sanitize=False):
+    sanitize = sanitize or os.environ.get("VERIF_SANITIZE") == "1"
     key = (group, sanitize)
     if key in _LOADED:
         return _LOADED[key]
